@@ -228,6 +228,37 @@ def addr_keyed_iterations(fx, addr_types):
     return out
 
 
+ORDER_CALLS = re.compile(r"(::sort(_unstable)?(_by(_key)?)?$|::binary_search(_by(_key)?)?$|Ord>::(cmp|max|min|clamp)$|PartialOrd>::(partial_cmp|lt|le|gt|ge)$|::is_sorted$|::select_nth_unstable$)")
+
+
+def _is_addr_type(fx, ti):
+    s_ = fx.tys(ti)
+    return s_.startswith(("*const ", "*mut ", "std::ptr::NonNull<", "core::ptr::NonNull<"))
+
+
+def addr_order_sites(fx):
+    """(fn, description, span): an ordering operation whose element / operand type is a pointer"""
+    out = []
+    for f in fx.fns.values():
+        if f.derived or not f.file.startswith("src/"):
+            continue
+        for bi, t in f.calls():
+            d = t[1].get("d", "")
+            if not ORDER_CALLS.search(d):
+                continue
+            if d.endswith(("_by", "_by_key")):
+                continue   # the key is chosen by a closure: judged by what the closure compares
+            targs = t[1].get("targs") or []
+            hit = any(_is_addr_type(fx, a) for a in targs) or "NonNull<" in d.split(" as ")[0] or d.startswith(("<*const", "<*mut"))
+            if hit:
+                out.append((f, "%s over %s" % (d.split("::")[-1], ", ".join(fx.tys(a) for a in targs) or d), t[6]))
+        for bl in f.blocks:
+            for st in bl["s"]:
+                if st[0] == "a" and st[2][0] == "bin" and st[2][1] in ("Lt", "Le", "Gt", "Ge") and len(st[2]) > 4 and st[2][4] is not None and _is_addr_type(fx, st[2][4]):
+                    out.append((f, "%s on %s" % (st[2][1], fx.tys(st[2][4])), st[3]))
+    return out
+
+
 def run(tier):
     ck = Check("C12", tier, "who-may-call / type-walk / intraprocedural flow rules over resolved MIR + compile_fail witnesses",
                ["bit-identical step traces and values across repetitions (run-time values)",
@@ -321,6 +352,20 @@ def run(tier):
                 ck.instance("R4d.ordered", t["s"], None, ok=ok)
                 if not ok:
                     ck.finding("R4d.ordered", "R4d.ordered/" + t["s"], None, "`%s`: Map/Set keys in an unordered container (script-visible iteration order would depend on addresses)" % t["s"])
+
+    # ---------------- R4e no ordering by address
+    ck.rule("R4e.addr-order", "no sort / binary search / ordered comparison over raw pointers or NonNull (allocation addresses differ between runs and processes)")
+    n_order = 0
+    for f, what, sp in addr_order_sites(fx):
+        n_order += 1
+        ck.instance("R4e.addr-order", "%s: %s" % (f.parent, what), F.short_span(sp), ok=False)
+        ck.finding("R4e.addr-order", "R4e.addr-order/%s/%s" % (f.parent, what.split()[0]), F.short_span(sp),
+                   "`%s` orders values by their address (%s): which slot, handle or entry comes first then depends on where the allocator placed them, "
+                   "so two runs of one program can differ" % (f.parent, what))
+    ctl_hits = {f.path for f, what, sp in addr_order_sites(ctl)}
+    if not ({"c12order::bad_sort", "c12order::bad_cmp"} <= ctl_hits) or "c12order::good_sort" in ctl_hits:
+        ck.closed_fail.append("R4e positive control failed (hits=%s)" % sorted(ctl_hits))
+    ck.note("R4e: %d address-ordering sites on this tree; positive control: fixture bad_sort / bad_cmp reported, good_sort silent" % n_order)
 
     # ---------------- R5 witnesses
     import witness
